@@ -269,7 +269,7 @@ func TestC16(t *testing.T) {
 	defer r.Finish()
 	r.SetRule("documents of both grammars (G3 trees rendered with comments and random ignored text, single-lexeme mutants, lexically broken tails, repository examples; a third of the sources flagged BuiltIn, with and without a name), each parsed at EVERY limit 0..N+2 (N = token count incl. comments per the reference lexer). " +
 		"oracle: limit 0 == unlimited; N <= L and unlimited success => identical tree incl. positions; N > L => error; unlimited failure => failure at every L; monotone in L; for N > L+2 the result is unchanged when the text after token L+2 is replaced by garbage (invalid bytes, unterminated string, 64 KiB of '['). " +
-		"Families of 1-8 MiB under limits 1..100000: failure within 50 ms + 20 us per limit token and bounded allocation. ParseSchemasWithLimit where per-source and in-total readings agree. non-trivial = (document, limit) pairs evaluated; distinct by document text")
+		"Valid documents of 6 000 - 70 000 tokens at limits 0, N-1, N, N+1. Families of 1-8 MiB under limits 1..100000: failure within 50 ms + 20 us per limit token and bounded allocation. ParseSchemasWithLimit where per-source and in-total readings agree. non-trivial = (document, limit) pairs evaluated; distinct by document text")
 	r.Assume("token count N is taken from the reference lexer; inputs the reference cannot lex but the library can (open known findings of C03) are skipped")
 	kit.RegisterReplayer("C16", "doc", c16Replay)
 	kit.RegisterReplayer("C16", "seed", c16Replay)
@@ -316,6 +316,56 @@ func TestC16(t *testing.T) {
 	clearInflight()
 	if r.Violations() > 0 {
 		return
+	}
+
+	// large valid documents: limit 0 means unlimited whatever the size, and the limit is exact at
+	// scale too (N and N-1 tokens, N beyond every round number a default budget could be)
+	if shard == 0 {
+		type big struct {
+			text   string
+			schema bool
+		}
+		var bigs []big
+		for _, n := range []int{6000, 20000, 70000} {
+			bigs = append(bigs, big{gen.WideQuery("w-fields", n), false}, big{gen.WideQuery("w-list", n), false}, big{gen.WideSchema("w-fielddefs", n/3), true}, big{gen.WideSchema("w-enum", n), true})
+		}
+		for _, b := range bigs {
+			ends, ok := tokenEnds(b.text)
+			if !ok {
+				r.HarnessErrorf("a wide family member does not lex for the reference")
+				return
+			}
+			n := len(ends)
+			c := c16Case{Input: b.text, Schema: b.schema}
+			r.Begin("seed", func() interface{} { return c16Case{Input: b.text[:60] + "...", Schema: b.schema} })
+			unl, pan := c16Parse(b.text, b.schema, 0, false)
+			v := ""
+			if pan != nil || !unl.ok {
+				v = "a large valid document is rejected without a limit: " + unl.err
+			}
+			for _, L := range []int{0, n, n - 1, n + 1} {
+				if v != "" {
+					break
+				}
+				res, pan := c16Parse(b.text, b.schema, L, true)
+				switch {
+				case pan != nil:
+					v = fmt.Sprintf("limit %d: panic %s", L, pan.Value)
+				case (L == 0 || L >= n) && !res.ok:
+					v = fmt.Sprintf("document of %d tokens under limit %d (0 = unlimited) fails: %s", n, L, res.err)
+				case L != 0 && L < n && res.ok:
+					v = fmt.Sprintf("document of %d tokens parses under limit %d", n, L)
+				}
+			}
+			r.End()
+			r.Case(true, fmt.Sprintf("large:%v:%d", b.schema, n))
+			r.Class("large-valid-document")
+			r.ClassN("pairs(document,limit)", 4)
+			if v != "" {
+				r.Violation("seed", c, "%s", v)
+				return
+			}
+		}
 	}
 
 	// repository examples
